@@ -239,9 +239,18 @@ def run_check(prop, tier, seed, t0, a):
                     failures.append('bounded layer evaluated zero contracts')
 
     wall = time.time() - t0
+    # the evidence level is the level claimed in MANIFEST.json (a proof-level claim with an undischarged obligation
+    # makes the check exit non-zero, it is never silently re-labelled)
     level = LEVELS.get(prop, 'other')
-    if level == 'proof' and (n_dis != n_obl or n_obl == 0 or undecided or known_hits):
-        level = 'other'
+    try:
+        with open(os.path.join(HERE, 'MANIFEST.json')) as f:
+            for c in json.load(f).get('checks', []):
+                if c['property_id'] == prop:
+                    level = c['level_claimed']['category']
+    except Exception:
+        pass
+    if level == 'proof' and (n_dis != n_obl or n_obl == 0) and not (violations or failures or undecided):
+        failures.append(f'proof-level claim but only {n_dis}/{n_obl} obligations discharged')
     samples = [o['name'] for o in obligation_list[:6]]
     if bounded:
         samples += bounded.get('samples', [])[:6]
